@@ -27,13 +27,16 @@ PLAIN_OF = {
 
 
 class Operand:
-    __slots__ = ("text", "block")
+    __slots__ = ("text", "block", "label")
 
-    def __init__(self, text, block=False):
+    def __init__(self, text, block=False, label=None):
         self.text = text
         self.block = block
+        self.label = label  # None | "'name": a LABELLED block expression `'name: { .. }` is a block operand like any other
 
     def dsl(self):
+        if self.block and self.label:
+            return "%s: { %s }" % (self.label, self.text)
         return "{ %s }" % self.text if self.block else self.text
 
 
@@ -41,8 +44,8 @@ def O(text):
     return Operand(text)
 
 
-def B(text):
-    return Operand(text, block=True)
+def B(text, label=None):
+    return Operand(text, block=True, label=label)
 
 
 class Op:
@@ -166,7 +169,7 @@ class _Caps:
             return o.text
         name = "__c%d_%d_%d" % (self.b, self.k, self.n)
         self.n += 1
-        self.defs.append("let %s = { %s };" % (name, o.text))
+        self.defs.append("let %s = %s{ %s };" % (name, "%s: " % o.label if o.label else "", o.text))
         return name
 
 
